@@ -30,6 +30,7 @@ import (
 type recLogger struct {
 	mu    sync.Mutex
 	lines []string
+	at    []time.Time
 	cond  *sync.Cond
 	hold  map[string]chan struct{} // a log line containing the key blocks until the channel is closed
 }
@@ -42,6 +43,7 @@ func newRecLogger() *recLogger {
 func (l *recLogger) add(s string) {
 	l.mu.Lock()
 	l.lines = append(l.lines, s)
+	l.at = append(l.at, time.Now())
 	var wait chan struct{}
 	for k, ch := range l.hold {
 		if strings.Contains(s, k) {
@@ -88,6 +90,19 @@ func (l *recLogger) waitCount(sub string, n int, d time.Duration) bool {
 		time.Sleep(2 * time.Millisecond)
 	}
 }
+
+// timesOf returns the times of the lines containing sub.
+func (l *recLogger) timesOf(sub string) []time.Time {
+	l.mu.Lock()
+	defer l.mu.Unlock()
+	var out []time.Time
+	for i, s := range l.lines {
+		if strings.Contains(s, sub) {
+			out = append(out, l.at[i])
+		}
+	}
+	return out
+}
 func (l *recLogger) snapshot() []string {
 	l.mu.Lock()
 	defer l.mu.Unlock()
@@ -100,6 +115,7 @@ type hookHub struct {
 	counts map[string]int
 	gates  map[string]*gate
 	events []string
+	times  map[string][]time.Time // arrival times per hook point
 }
 type gate struct {
 	parked  chan []interface{} // a goroutine arrived (its args)
@@ -115,6 +131,9 @@ func installHooks() {
 	verifhook.Install(func(name string, args ...interface{}) {
 		hub.mu.Lock()
 		hub.counts[name]++
+		if hub.times != nil && name == "ka.tick" {
+			hub.times[name] = append(hub.times[name], time.Now())
+		}
 		g := hub.gates[name]
 		if g != nil && (g.pred == nil || g.pred(args)) && !(g.once && g.used) {
 			g.used = true
@@ -139,6 +158,7 @@ func (h *hookHub) reset() {
 	}
 	h.counts = map[string]int{}
 	h.gates = map[string]*gate{}
+	h.times = map[string][]time.Time{}
 	h.mu.Unlock()
 }
 
